@@ -205,4 +205,18 @@ PROPS["C19"] = {
     "level_note": "Partial: cobra parsing and the pretty-printers are third-party and only exercised. Trusted: Lean kernel for the renderer theorems; factgen F10.",
 }
 
+PROPS["C11"] = {
+    "level": "proof",
+    "streams": ["watch"],
+    "timeout": 2400,
+    "trusted_base": ["inotify event generation as abstracted by the model's event table (validated against a plain fsnotify watcher on every run): which operations produce an event that passes the watcher's filter",
+                     "fsnotify delivers queued events in order and does not overflow its queue for these histories",
+                     "the cache mutex serialises update+scan of the watcher and of queries (C12)"],
+    "assumptions": ["I8: the alphabet is the one of the statement (files created, rewritten, replaced by rename, moved or linked in, renamed away, removed; the directory missing at start, created, removed, recreated) - the configured directory itself is not renamed",
+                    "'soon' = within the polling deadline (4 s) after the history ends"],
+    "technique": "Lean 4 proof: inductive invariant of the watch/update/scan/query state machine over every interleaving with file-system operations => convergence once the queue is drained; pinned defects refuted by witnesses; histories on the real kernel at several pacings incl. controlled pacing through the exported cache mutex",
+    "level_text": "Kernel-checked theorem over the abstract state machine of one configured directory (kernel watch attached or not, watcher's belief, event queue, pending scan, staleness): for every finite history of file-system operations interleaved in any way with the watcher's event handling, its scans (file-system operations may fall between update and scan) and queries, once the queue is drained the next query is not stale, i.e. returns what a fresh cache returns; the proof is an invariant preserved by every step, with no bound on the history. Both defects of the pinned tree (Create events dropped; a directory scanned while unwatched and then removed) are counterexamples proved in Lean and reproduced on the real code. Tied to the code by validating the event table with a plain fsnotify watcher and by running fixed and random histories against a real auto-refresh cache (no Refresh call) at three pacings plus controlled pacing (the harness holds the exported cache mutex across groups of operations), polling queries until they equal a fresh cache.",
+    "level_note": "Partial: inotify semantics, queue overflow, goroutine scheduling and timing are the kernel's and runtime's; the model covers one directory (directories are independent in watch.update).",
+}
+
 NOT_APPLICABLE = {}
